@@ -1002,14 +1002,17 @@ def run(ctx):
     nt = sorted(res["nontrivial"], key=lambda x: -len(x[1]))
     res["samples"] = [{"format": f, "content": s} for f, s in nt[:2]] + [{"format": f, "content": s} for f, s in nt[len(nt) // 2:len(nt) // 2 + 3]]
     res["clauses"] = {
-        "theorem": ["component facts about the reader MODELS only (no theorem mentions display/serialise/ok_lines_a): WebVTT "
-                    "replace chain decodes the six references once; the hand-written tag matcher deletes known tags by name; "
-                    "line loop = per-cue decode on well-formed documents",
+        "theorem": ["END TO END on the models (oracle ok_lines_a as conclusion): SRT and MicroDVD for every item list without the "
+                    "separator in text; WebVTT for raw / WebVTT-named spellings, all known tags in all six shapes, voice and "
+                    "unknown tags, on lines without white space at their ends (C04_*_end_to_end*)",
+                    "WebVTT components: replace chain decodes the six references once; the tag matcher deletes known tags by "
+                    "name; line loop = per-cue decode on well-formed documents",
                     "SAMI stage 1 keeps & < > escaped whatever their spelling (second parse gives the text once)",
                     "text-node matcher keeps all words of text wrapped over several source lines",
                     "DFXP/SAMI tree walk keeps all non-white-space characters (cannot see glued words)",
                     "the two WebVTT regular expressions are pinned: an edit breaks props/C04.v"],
-        "correspondence_only": ["the statement itself for all five formats: oracle on the real readers",
+        "correspondence_only": ["the statement for DFXP and SAMI, and for all five formats on the REAL readers: oracle on "
+                                "executed reads",
                                 "html.parser tokenisation, BeautifulSoup tree building (counted against the spec, SAMI events / "
                                 "DFXP trees only)", "document skeletons (head, timing attributes) around the inline content",
                                 "SRT / MicroDVD line splitting (model vs reader), no theorem"]}
